@@ -99,6 +99,10 @@ func init() {
 		"	fc.release = make(chan struct{}, cfg.MaxDescriptors)\n",
 		"	fc.release = make(chan struct{}, cfg.MaxDescriptors)\n	if f, ferr := cfg.FS.Open(indexFile, os.O_RDWR); ferr == nil {\n		_ = f.Close()\n	}\n", "C02.R2.order")
 
+	mut("C02", "update persists only from the updated position", idxgo,
+		"		persistPointers := idx.indexPersist.prepare(idx.persistHead)\n		idx.mu.Unlock()\n		return persistPointers()\n	}\n\n	idx.mu.Unlock()\n	return nil",
+		"		persistPointers := idx.indexPersist.prepare(updateAt)\n		idx.mu.Unlock()\n		return persistPointers()\n	}\n\n	idx.mu.Unlock()\n	return nil", "C02.R2.start")
+
 	// ---------------- C04
 	mut("C04", "DeleteTimeRange ignores a positive HasDataFor", cdel,
 		"			if err != nil || hasOverlap {", "			_ = hasOverlap\n			if err != nil {", "C04.R1.guard")
